@@ -406,6 +406,8 @@ func (m *ProbeMeta) Init(process gen.MetaProcess) error {
 	return nil
 }
 
+var errMetaStartPanics = fmt.Errorf("start panics")
+
 // Start is the meta-process' own loop; it is not one of the serialised callbacks.
 func (m *ProbeMeta) Start() error {
 	h := m.H
@@ -420,6 +422,9 @@ func (m *ProbeMeta) Start() error {
 	case err = <-m.Stop:
 		if h.Env != nil {
 			h.Env.Gate("meta:" + h.Name + ":start-returns")
+		}
+		if err == errMetaStartPanics {
+			panic("injected panic in Start of the meta-process")
 		}
 	case <-m.term:
 		// like a real meta-process whose Terminate closes the resource Start is blocked on
